@@ -776,7 +776,7 @@ def main(tier):
     B.clean_work(PROP)
     cfg_cov = config_table_check(run, broken, res['ok'])
     rnd = random.Random(run.seed * 7919 + 11)
-    n = 80 if tier == "quick" else 1500
+    n = 80 if tier == "quick" else 400
     per = 3 if tier == 'quick' else 5
     jobs = [(k, spec, toggles, ([i for i, x in enumerate(spec['sources']) if x['name'] == miss[0]][0], miss[1]) if miss else None)
             for k, (spec, toggles, miss) in enumerate(corpus())]
